@@ -166,8 +166,8 @@ func init() {
 		{"c12Skel_MaxJobsRelease", "martian/core/maxjobs_semaphore.go", "MaxJobsSemaphore", "Release", nil},
 		{"c12Skel_MaxJobsFindDone", "martian/core/maxjobs_semaphore.go", "MaxJobsSemaphore", "FindDone", nil},
 		{"c12Skel_MaxJobsClear", "martian/core/maxjobs_semaphore.go", "MaxJobsSemaphore", "Clear", nil},
-		{"c12Skel_GetSystemReqs", "martian/core/jobmanager_local.go", "LocalJobManager", "GetSystemReqs",
-			func(s string) bool { return !strings.HasPrefix(s, "if self.debug") }},
+		// (GetSystemReqs: no textual skeleton any more — its integer logic is translated and tied
+		// by theorems, Props/C12Tie.lean)
 		{"c12Skel_setupSemaphores", "martian/core/jobmanager_local.go", "LocalJobManager", "setupSemaphores",
 			func(s string) bool {
 				return strings.Contains(s, "Sem") || strings.Contains(s, "rlim") || strings.Contains(s, "maxVmemMB") ||
